@@ -273,12 +273,10 @@ def stsHeader (tls : Bool) (cfg : Cfg) : Option (Outcome (List Char)) :=
   else none
 
 /-- The header as the client gets it with the final response. `httputil.ReverseProxy` relays an informational
-response by writing it with the header map as it is and then clearing the map ("it's not automatically done by
-ResponseWriter.WriteHeader() for 1xx responses"): whatever the proxy set before handing the request to the
-reverse proxy is gone after the first relayed 1xx response. -/
+response by writing it with the header map as it is and then clearing the map; since 3162882 (`fix:` of another
+property's check) the capturing `responseWriter` remembers what the proxy had set before the handler ran and puts it
+back before the final header is written: the header is there whatever the upstream sent first. -/
 def clientSTS (tls : Bool) (cfg : Cfg) : Upstream → Option (Outcome (List Char))
-  | .response (_ :: _) _ _ => none
-  | .cut (_ :: _) _ _ => none
   | _ => stsHeader tls cfg
 
 /-- the `tlsver` table of `proxy/http_headers.go` -/
